@@ -446,27 +446,68 @@ func c07Counts(c *core.Ctx, tabs *Tables) {
 			continue
 		}
 		n := 0
-		allInstrs(f, func(fn *ssa.Function, ins ssa.Instruction) {
-			call, ok := ins.(ssa.CallInstruction)
-			if !ok {
-				return
+		// origins of a value in the frame of f: a helper's parameter stands for what f hands it
+		var rootsOf func(v ssa.Value, env map[*ssa.Parameter]ssa.Value, outer func(ssa.Value) []ssa.Value) []ssa.Value
+		rootsOf = func(v ssa.Value, env map[*ssa.Parameter]ssa.Value, outer func(ssa.Value) []ssa.Value) []ssa.Value {
+			var out []ssa.Value
+			for _, o := range origins(v) {
+				if p, isP := o.(*ssa.Parameter); isP && env != nil {
+					if bound, has := env[p]; has {
+						out = append(out, outer(bound)...)
+						continue
+					}
+				}
+				out = append(out, o)
 			}
-			cal := calleeOf(call)
-			name := ""
-			if cal != nil && (cal.Name() == currentName(c, "pkg/closest", "rawDistance") || cal.Name() == currentName(c, "pkg/closest", "snpDistance") || cal.Name() == currentName(c, "pkg/closest", "tn93Distance")) {
-				name = cal.Name()
-			} else if cal == nil && !call.Common().IsInvoke() && isDistanceSignature(call.Common().Signature()) {
-				name = "distance function value" // the measure selected through a table of functions
-			}
-			if name == "" {
-				return
-			}
-			n++
-			args := call.Common().Args
-			qIsParam := allOrigins(args[0], func(o ssa.Value) bool { _, ok := o.(*ssa.Parameter); return ok })
-			tFromChan := allOrigins(args[1], func(o ssa.Value) bool { return fromChannel(o) })
-			c.Ob("R3/argument-roles/"+fname+"/"+name, qIsParam && tFromChan, ins.Pos(), "distance called with (query=%s, target=%s); expected (the query parameter, the record received from the target channel)", args[0].Name(), args[1].Name())
-		})
+			return out
+		}
+		var visit func(g *ssa.Function, env map[*ssa.Parameter]ssa.Value, outer func(ssa.Value) []ssa.Value, depth int)
+		visit = func(g *ssa.Function, env map[*ssa.Parameter]ssa.Value, outer func(ssa.Value) []ssa.Value, depth int) {
+			here := func(v ssa.Value) []ssa.Value { return rootsOf(v, env, outer) }
+			allInstrs(g, func(fn *ssa.Function, ins ssa.Instruction) {
+				call, ok := ins.(ssa.CallInstruction)
+				if !ok {
+					return
+				}
+				cal := calleeOf(call)
+				name := ""
+				if cal != nil && (cal.Name() == currentName(c, "pkg/closest", "rawDistance") || cal.Name() == currentName(c, "pkg/closest", "snpDistance") || cal.Name() == currentName(c, "pkg/closest", "tn93Distance")) {
+					name = cal.Name()
+				} else if cal == nil && !call.Common().IsInvoke() && isDistanceSignature(call.Common().Signature()) {
+					name = "distance function value" // the measure selected through a table of functions
+				}
+				if name == "" {
+					// a helper of the package that is handed records: the distance may be taken there
+					if cal != nil && depth < 2 && cal.Pkg == g.Pkg && cal != g && len(cal.Blocks) > 0 {
+						sub := map[*ssa.Parameter]ssa.Value{}
+						for i, a := range call.Common().Args {
+							if i < len(cal.Params) {
+								sub[cal.Params[i]] = a
+							}
+						}
+						visit(cal, sub, here, depth+1)
+					}
+					return
+				}
+				n++
+				args := call.Common().Args
+				all := func(vs []ssa.Value, pred func(ssa.Value) bool) bool {
+					if len(vs) == 0 {
+						return false
+					}
+					for _, v := range vs {
+						if !pred(v) {
+							return false
+						}
+					}
+					return true
+				}
+				qIsParam := all(here(args[0]), func(o ssa.Value) bool { p, ok := o.(*ssa.Parameter); return ok && p.Parent() == f })
+				tFromChan := all(here(args[1]), func(o ssa.Value) bool { return fromChannel(o) })
+				c.Ob("R3/argument-roles/"+fname+"/"+name, qIsParam && tFromChan, ins.Pos(), "distance called with (query=%s, target=%s); expected (the query parameter, the record received from the target channel)", args[0].Name(), args[1].Name())
+			})
+		}
+		visit(f, nil, func(v ssa.Value) []ssa.Value { return origins(v) }, 0)
 		c.Floor("R3/argument-roles/"+fname, n, 1)
 	}
 	// the readers used for queries and targets
